@@ -105,7 +105,7 @@ func c08Word(cc *run.Case, values []float64, word []strategy.Action, sched mon.S
 		}
 	}
 	for i := range got {
-		if math.Abs(got[i]-want[i]) > 1e-12*math.Max(1, math.Abs(want[i])) {
+		if !(math.Abs(got[i]-want[i]) <= 1e-12*math.Max(1, math.Abs(want[i]))) && !(math.IsNaN(got[i]) && math.IsNaN(want[i])) {
 			cc.Viol("", fmt.Sprintf("Outcome[%d] = %.17g, an all-in/all-out portfolio gives %.17g", i, got[i], want[i]), detail())
 			return false
 		}
@@ -297,7 +297,7 @@ func c08(ctx *run.Ctx) {
 			}
 			for i := range outs {
 				want := closes[i]/closes[0] - 1
-				if math.Abs(outs[i]-want) > 1e-12*math.Max(1, math.Abs(want)) {
+				if !(math.Abs(outs[i]-want) <= 1e-12*math.Max(1, math.Abs(want))) { // (NaN-safe)
 					cc.Viol("", fmt.Sprintf("buy-and-hold outcome[%d] = %.17g, value_i/value_0 - 1 = %.17g", i, outs[i], want), map[string]any{"closes": closes})
 					return
 				}
